@@ -598,9 +598,9 @@ def _phi_failkey(h, geff, nu=1.0):
             return 'phi1D-qadjust-guard-overflow'
         if h == 0.5 and 0 < abs(g) < 1e-6:
             return 'phi1D-genic-small-gamma-cancellation'
-        if h != 0.5 and g < -3.0e6:
+        if h != 0.5 and g < -2.0e6:
             # exp(-Q) is a spike of width ~1/|gamma| at x = 1 that the 41-point quadrature no longer resolves: int0 underflows to 0
-            return 'phi1D-general-h-quadrature-unresolved-beyond-3e6'
+            return 'phi1D-general-h-quadrature-unresolved-extreme-gamma'
     return 'phi1D-finite-nonneg'
 
 
